@@ -5,8 +5,9 @@ about.  When the Python source of one of these functions changes, the generated 
 the corresponding `…_eq_model` theorem here is re-checked by the kernel against what the code says now.
 -/
 import NumbersModel.Gen.TrNumFmt
-import NumbersModel.Model.NumFmt
+import NumbersModel.Lemmas.NumFmt
 import Mathlib.Tactic.Ring
+import Mathlib.Tactic.IntervalCases
 
 namespace NumbersModel.Translated
 open NumbersModel NumbersModel.Gen.T
@@ -72,5 +73,349 @@ theorem format_fraction_parts_to_eq_model (whole numerator : Int) (den : Nat) :
   have h := fraction_core (if whole < 0 ∨ numerator < 0 then ['-'] else []) whole.natAbs numerator.natAbs den
   simp only [decide_eq_true_eq] at h ⊢
   exact h
+
+/-! ### `_twos_complement` (character level, as the code does it) = the arithmetic model `2^bits − a` -/
+
+open NumFmt
+
+/-- bit length, as a well-founded specification -/
+def sz (n : Nat) : Nat := if h : n = 0 then 0 else sz (n / 2) + 1
+termination_by n
+decreasing_by omega
+
+theorem sz_zero : sz 0 = 0 := by unfold sz; simp
+theorem sz_pos (n : Nat) (h : n ≠ 0) : sz n = sz (n / 2) + 1 := by rw [sz]; simp [h]
+
+theorem sz_le_iff (k : Nat) : ∀ m, sz m ≤ k ↔ m < 2 ^ k := by
+  induction k with
+  | zero =>
+    intro m
+    by_cases h : m = 0
+    · subst h; simp [sz_zero]
+    · rw [sz_pos m h]; simp; omega
+  | succ k ih =>
+    intro m
+    by_cases h : m = 0
+    · subst h; simp [sz_zero]
+    · rw [sz_pos m h, Nat.add_le_add_iff_right, ih (m / 2), Nat.pow_succ]
+      omega
+
+theorem bitLengthAux_eq (fuel : Nat) : ∀ n k, n < fuel → PyT.bitLengthAux fuel n k = k + sz n := by
+  induction fuel with
+  | zero => intro n k h; omega
+  | succ f ih =>
+    intro n k h
+    unfold PyT.bitLengthAux
+    by_cases hn : n = 0
+    · subst hn; simp [sz_zero]
+    · simp only [hn, if_false]
+      rw [ih _ _ (by omega), sz_pos n hn]; omega
+
+theorem clog2Aux_eq (a : Nat) (ha : 1 ≤ a) (fuel : Nat) : ∀ k, k ≤ sz (a - 1) → sz (a - 1) < k + fuel →
+    clog2Aux fuel a k = sz (a - 1) := by
+  induction fuel with
+  | zero => intro k h1 h2; omega
+  | succ f ih =>
+    intro k h1 h2
+    unfold clog2Aux
+    by_cases hk : 2 ^ k ≥ a
+    · simp only [hk, if_true]
+      have : sz (a - 1) ≤ k := (sz_le_iff k (a - 1)).mpr (by omega)
+      omega
+    · simp only [hk, if_false]
+      have : ¬ sz (a - 1) ≤ k := fun h => hk (by have := (sz_le_iff k (a - 1)).mp h; omega)
+      exact ih (k + 1) (by omega) (by omega)
+
+theorem sz_le_self (m : Nat) : sz m ≤ m := (sz_le_iff m m).mpr Nat.lt_two_pow_self
+
+theorem clog2_eq_sz (a : Nat) (ha : 1 ≤ a) : clog2 a = sz (a - 1) := by
+  unfold clog2
+  exact clog2Aux_eq a ha (a + 1) 0 (by omega) (by have := sz_le_self (a - 1); omega)
+
+theorem bitLength_pred (a : Nat) (ha : 1 ≤ a) : PyT.bitLength ((a : Int) - 1) = (clog2 a : Int) := by
+  have h1 : ((a : Int) - 1).natAbs = a - 1 := by omega
+  unfold PyT.bitLength
+  rw [h1, bitLengthAux_eq _ _ _ (by omega), clog2_eq_sz a ha]; simp
+
+/-! digits -/
+
+theorem digitChar_eq_baseChar (d : Nat) (h : d < 10) : PyT.digitChar d = baseChar d := by
+  simp [PyT.digitChar, baseChar, h]
+
+theorem digitsAux_eq_toBaseAux (b : Nat) (hb2 : 2 ≤ b) (hb : b ≤ 10) : ∀ fuel n acc,
+    PyT.digitsAux b fuel n acc = toBaseAux b fuel n acc := by
+  intro fuel
+  induction fuel with
+  | zero => intro n acc; rfl
+  | succ f ih =>
+    intro n acc
+    unfold PyT.digitsAux toBaseAux
+    by_cases hn : n = 0
+    · simp [hn]
+    · simp only [hn, if_false]
+      have : n % b < 10 := by have := Nat.mod_lt n (by omega : b > 0); omega
+      rw [digitChar_eq_baseChar _ this, ih]
+
+theorem upper_digitChar (d : Nat) (h : d < 16) :
+    (if 'a' ≤ PyT.digitChar d ∧ PyT.digitChar d ≤ 'z' then Char.ofNat ((PyT.digitChar d).toNat - 32) else PyT.digitChar d)
+      = baseChar d := by
+  interval_cases d <;> decide
+
+theorem upper_digitsAux16 : ∀ fuel n acc,
+    PyT.upperAscii (PyT.digitsAux 16 fuel n acc) = toBaseAux 16 fuel n (PyT.upperAscii acc) := by
+  intro fuel
+  induction fuel with
+  | zero => intro n acc; rfl
+  | succ f ih =>
+    intro n acc
+    unfold PyT.digitsAux toBaseAux
+    by_cases hn : n = 0
+    · simp [hn]
+    · simp only [hn, if_false]
+      rw [ih]
+      congr 1
+      simp only [PyT.upperAscii, List.map_cons]
+      rw [upper_digitChar _ (Nat.mod_lt n (by omega))]
+
+theorem digitsOfBase_nat (t : Nat) (ht : t ≠ 0) (b : Nat) :
+    PyT.digitsOfBase (t : Int) b = .ok (PyT.digitsAux b (t + 1) t []) := by
+  have h1 : ¬ ((t : Int) < 0) := by omega
+  have h2 : ¬ ((t : Int) = 0) := by omega
+  simp [PyT.digitsOfBase, h1, ht]
+
+/-! binary strings -/
+
+def Bin (s : Text) : Prop := ∀ c ∈ s, c = '0' ∨ c = '1'
+
+/-- base-2 reading with an initial accumulator -/
+def pb (a : Nat) (s : Text) : Nat := s.foldl (fun a c => a * 2 + charVal c) a
+
+theorem pb_zero_eq (s : Text) : pb 0 s = parseBase 2 s := rfl
+
+theorem pb_append (a : Nat) (s t : Text) : pb a (s ++ t) = pb (pb a s) t := by simp [pb, List.foldl_append]
+
+theorem charVal_01 (c : Char) (h : c = '0' ∨ c = '1') : charVal c = (if c = '1' then 1 else 0) := by
+  rcases h with h | h <;> subst h <;> decide
+
+theorem pb_split (s : Text) : ∀ a, pb a s = a * 2 ^ s.length + pb 0 s := by
+  induction s with
+  | nil => intro a; simp [pb]
+  | cons c cs ih =>
+    intro a
+    have e1 : pb a (c :: cs) = pb (a * 2 + charVal c) cs := rfl
+    have e2 : pb 0 (c :: cs) = pb (0 * 2 + charVal c) cs := rfl
+    rw [e1, e2, ih (a * 2 + charVal c), ih (0 * 2 + charVal c)]
+    simp only [List.length_cons, Nat.pow_succ]
+    ring
+
+theorem pb_ones (m : Nat) : ∀ a, pb a (List.replicate m '1') = a * 2 ^ m + (2 ^ m - 1) := by
+  induction m with
+  | zero => intro a; simp [pb]
+  | succ m ih =>
+    intro a
+    have e1 : pb a (List.replicate (m + 1) '1') = pb (a * 2 + charVal '1') (List.replicate m '1') := rfl
+    rw [e1, ih]
+    have hc : charVal '1' = 1 := by decide
+    have hp : 0 < 2 ^ m := Nat.pow_pos (by omega)
+    rw [hc, Nat.pow_succ]
+    have : (a * 2 + 1) * 2 ^ m = a * (2 ^ m * 2) + 2 ^ m := by ring
+    omega
+
+def flipBit (c : Char) : Char := if c = '1' then '0' else '1'
+
+theorem invert_eq (s : Text) : invert_bit_str s = .ok (s.map flipBit) := by
+  unfold invert_bit_str
+  simp only [pure, Except.pure, PyT.joinEmpty, PyT.strIter, List.map_map]
+  congr 1
+  induction s with
+  | nil => rfl
+  | cons c cs ih =>
+    simp only [List.map_cons, List.flatten_cons, ih, Function.comp]
+    by_cases h : c = '1' <;> simp [h, flipBit]
+
+theorem pb_flip (s : Text) (hs : Bin s) : pb 0 (s.map flipBit) + pb 0 s = 2 ^ s.length - 1 := by
+  induction s with
+  | nil => simp [pb]
+  | cons c cs ih =>
+    have hcs : Bin cs := fun x hx => hs x (List.mem_cons_of_mem _ hx)
+    have hc := hs c (List.mem_cons_self ..)
+    have e1 : pb 0 ((c :: cs).map flipBit) = pb (0 * 2 + charVal (flipBit c)) (cs.map flipBit) := rfl
+    have e2 : pb 0 (c :: cs) = pb (0 * 2 + charVal c) cs := rfl
+    have := ih hcs
+    have hp : 0 < 2 ^ cs.length := Nat.pow_pos (by omega)
+    have f0 : charVal (flipBit '0') = 1 := by decide
+    have f1 : charVal (flipBit '1') = 0 := by decide
+    have c0 : charVal '0' = 0 := by decide
+    have c1 : charVal '1' = 1 := by decide
+    rcases hc with h | h <;> subst h
+    · rw [e1, e2, f0, c0, pb_split (cs.map flipBit), pb_split cs]
+      simp only [List.length_map, List.length_cons, Nat.pow_succ] at *
+      omega
+    · rw [e1, e2, f1, c1, pb_split (cs.map flipBit), pb_split cs]
+      simp only [List.length_map, List.length_cons, Nat.pow_succ] at *
+      omega
+
+theorem bin_flip (s : Text) (hs : Bin s) : Bin (s.map flipBit) := by
+  intro c hc
+  simp only [List.mem_map] at hc
+  obtain ⟨d, _, rfl⟩ := hc
+  by_cases h : d = '1' <;> simp [flipBit, h]
+
+theorem intOfBase_bin (s : Text) (hs : Bin s) (hne : s ≠ []) : PyT.intOfBase s 2 = .ok ((pb 0 s : Nat) : Int) := by
+  have gen : ∀ (t : Text), Bin t → ∀ (a : Nat),
+      List.foldlM (fun (acc : Int) c => match PyT.digitValue c with
+        | some v => if v < 2 then (Except.ok (acc * (2 : Nat) + v) : PyM Int) else .error .ValueError
+        | none => .error .ValueError) (a : Int) t = .ok ((pb a t : Nat) : Int) := by
+    intro t
+    induction t with
+    | nil => intro _ a; rfl
+    | cons c cs ih =>
+      intro ht a
+      have hcs : Bin cs := fun x hx => ht x (List.mem_cons_of_mem _ hx)
+      have hc := ht c (List.mem_cons_self ..)
+      have e2 : pb a (c :: cs) = pb (a * 2 + charVal c) cs := rfl
+      rw [List.foldlM_cons, e2]
+      rcases hc with h | h <;> subst h
+      · have : PyT.digitValue '0' = some 0 := by decide
+        simp only [this, bind, Except.bind]
+        have hv : charVal '0' = 0 := by decide
+        rw [hv]
+        have := ih hcs (a * 2 + 0)
+        simpa using this
+      · have : PyT.digitValue '1' = some 1 := by decide
+        simp only [this, bind, Except.bind]
+        have hv : charVal '1' = 1 := by decide
+        rw [hv]
+        have := ih hcs (a * 2 + 1)
+        simpa using this
+  unfold PyT.intOfBase
+  simp only [hne, if_false]
+  exact gen s hs 0
+
+theorem toBaseSpec2_bin : ∀ n, Bin (toBaseSpec 2 n) := by
+  intro n
+  induction n using Nat.strongRecOn with
+  | _ n ih =>
+    unfold toBaseSpec
+    by_cases h : n = 0 ∨ 2 < 2
+    · have : n = 0 := by omega
+      subst this
+      intro c hc
+      simp at hc
+    · simp only [h, dite_false]
+      intro c hc
+      simp only [List.mem_append, List.mem_singleton] at hc
+      rcases hc with hc | hc
+      · exact ih (n / 2) (by omega) c hc
+      · subst hc
+        have : n % 2 = 0 ∨ n % 2 = 1 := by omega
+        rcases this with e | e <;> rw [e] <;> decide
+
+theorem toBaseSpec2_len : ∀ n, (toBaseSpec 2 n).length = sz n := by
+  intro n
+  induction n using Nat.strongRecOn with
+  | _ n ih =>
+    unfold toBaseSpec
+    by_cases h : n = 0 ∨ 2 < 2
+    · have : n = 0 := by omega
+      subst this; simp [sz_zero]
+    · simp only [h, dite_false, List.length_append, List.length_singleton]
+      rw [ih (n / 2) (by omega), sz_pos n (by omega)]
+
+theorem sz_le_succ_pred (a : Nat) (ha : 1 ≤ a) : sz a ≤ sz (a - 1) + 1 := by
+  rw [sz_le_iff]
+  have := (sz_le_iff (sz (a - 1)) (a - 1)).mp (Nat.le_refl _)
+  rw [Nat.pow_succ]; omega
+
+theorem maxI_toNat (k : Nat) : (PyT.maxI 32 ((k : Int) + 1)).toNat = max 32 (k + 1) := by
+  unfold PyT.maxI
+  split <;> omega
+
+theorem maxI_cast (k : Nat) : PyT.maxI 32 ((k : Int) + 1) = ((max 32 (k + 1) : Nat) : Int) := by
+  unfold PyT.maxI
+  split <;> omega
+
+theorem twos_complement_eq_model (a : Nat) (ha : 1 ≤ a) (base : Nat) (hb : base = 2 ∨ base = 8 ∨ base = 16) :
+    twos_complement (-(a : Int)) (base : Int) = .ok (twosComplement a base) := by
+  unfold twos_complement twosComplement
+  have habs : PyT.abs (-(a : Int)) = (a : Int) := by simp [PyT.abs]
+  simp only [habs, bitLength_pred a ha, maxI_cast]
+  obtain ⟨h32, hfit⟩ := twos_bits a
+  generalize hB : max 32 (clog2 a + 1) = B at *
+  -- the binary digits of a
+  rw [digitsOfBase_nat a (by omega) 2, digitsAux_eq_toBaseAux 2 (by omega) (by omega)]
+  have hbits : toBaseAux 2 (a + 1) a [] = toBaseSpec 2 a := toBase_eq 2 (by omega) a
+  rw [hbits]
+  simp only [bind, Except.bind, invert_eq]
+  have hbin := toBaseSpec2_bin a
+  have hlen : (toBaseSpec 2 a).length = sz a := toBaseSpec2_len a
+  have hL : sz a ≤ B := by
+    have := sz_le_succ_pred a ha
+    rw [← clog2_eq_sz a ha] at this
+    omega
+  -- int(inverted.rjust(B, "1"), 2)
+  have hrj : PyT.rjust ((toBaseSpec 2 a).map flipBit) (B : Int) '1'
+      = List.replicate (B - sz a) '1' ++ (toBaseSpec 2 a).map flipBit := by
+    simp [PyT.rjust, hlen]
+  rw [hrj]
+  have hbin2 : Bin (List.replicate (B - sz a) '1' ++ (toBaseSpec 2 a).map flipBit) := by
+    intro c hc
+    simp only [List.mem_append, List.mem_replicate] at hc
+    rcases hc with ⟨_, hc⟩ | hc
+    · exact Or.inr hc
+    · exact bin_flip _ hbin c hc
+  have hne : List.replicate (B - sz a) '1' ++ (toBaseSpec 2 a).map flipBit ≠ [] := by
+    have hnz : (toBaseSpec 2 a).length ≠ 0 := by
+      rw [hlen, sz_pos a (by omega)]; omega
+    intro h
+    have h3 : (toBaseSpec 2 a).map flipBit = [] := (List.append_eq_nil_iff.mp h).2
+    have h4 : (toBaseSpec 2 a).length = 0 := by simpa using congrArg List.length h3
+    exact hnz h4
+  rw [intOfBase_bin _ hbin2 hne]
+  -- the value read is 2^B - 1 - a
+  have hval : pb 0 (List.replicate (B - sz a) '1' ++ (toBaseSpec 2 a).map flipBit) = 2 ^ B - 1 - a := by
+    rw [pb_append, pb_ones, pb_split]
+    have hf := pb_flip _ hbin
+    have hpa : pb 0 (toBaseSpec 2 a) = a := by
+      rw [pb_zero_eq]; exact parseBase_toBaseSpec 2 (by omega) (by omega) a
+    rw [hpa, hlen] at hf
+    simp only [List.length_map, hlen, Nat.zero_mul, Nat.zero_add]
+    have hpow : 2 ^ B = 2 ^ (B - sz a) * 2 ^ sz a := by
+      rw [← Nat.pow_add]; congr 1; omega
+    have hp1 : 0 < 2 ^ (B - sz a) := Nat.pow_pos (by omega)
+    have hp2 : 0 < 2 ^ sz a := Nat.pow_pos (by omega)
+    have halt : a < 2 ^ sz a := (sz_le_iff (sz a) a).mp (Nat.le_refl _)
+    have e1 : (2 ^ (B - sz a) - 1) * 2 ^ sz a = 2 ^ B - 2 ^ sz a := by
+      rw [hpow, Nat.sub_mul]; simp
+    rw [e1]
+    have : 2 ^ sz a ≤ 2 ^ B := Nat.pow_le_pow_right (by omega) hL
+    omega
+  rw [hval]
+  have hpB : 2 ^ B = 2 * 2 ^ (B - 1) := by
+    have : B = (B - 1) + 1 := by omega
+    rw [this, Nat.pow_succ]; simp; omega
+  have hpos : 0 < 2 ^ (B - 1) := Nat.pow_pos (by omega)
+  have hlt : a < 2 ^ B := by omega
+  have hcast : (((2 ^ B - 1 - a : Nat) : Int) + 1) = ((2 ^ B - a : Nat) : Int) := by
+    generalize 2 ^ B = X at hlt ⊢
+    omega
+  have htne : 2 ^ B - a ≠ 0 := by omega
+  simp only [hcast]
+  rcases hb with h | h | h <;> subst h
+  · simp only [show ((2 : Nat) : Int) = 2 from rfl, decide_true, if_true]
+    rw [digitsOfBase_nat _ htne 2, digitsAux_eq_toBaseAux 2 (by omega) (by omega)]
+    simp [PyT.rjust, toBase, pure, Except.pure]
+  · have h8 : ¬ (((8 : Nat) : Int) = 2) := by omega
+    have h82 : ¬ ((8 : Nat) = 2) := by omega
+    simp only [h8, h82, decide_false, Bool.false_eq_true, if_false, decide_true, if_true]
+    rw [digitsOfBase_nat _ htne 8, digitsAux_eq_toBaseAux 8 (by omega) (by omega)]
+    simp [toBase, pure, Except.pure]
+  · have h16 : ¬ (((16 : Nat) : Int) = 2) := by omega
+    have h168 : ¬ (((16 : Nat) : Int) = 8) := by omega
+    have h162 : ¬ ((16 : Nat) = 2) := by omega
+    simp only [h16, h168, h162, decide_false, Bool.false_eq_true, if_false]
+    rw [digitsOfBase_nat _ htne 16]
+    simp only [pure, Except.pure, upper_digitsAux16, toBase]
+    rfl
 
 end NumbersModel.Translated
